@@ -2,7 +2,9 @@
 Writes /verif/seeded/<PID>_<X>/{patch.diff,demo.py,notes.md,meta.json}. Run: python3 dev/confirm_seeds.py [PID ...]"""
 import json, os, subprocess, sys, shutil
 from pathlib import Path
-OUT = Path("/tmp/seed/out"); WT = Path("/tmp/seedcheck/wt"); DST = Path("/verif/seeded")
+OUT = Path(os.environ.get("SEED_OUT", "/tmp/seed/out")); WT = Path("/tmp/seedcheck/wt"); DST = Path("/verif/seeded")
+VARS = os.environ.get("SEED_VARIANTS", "AB")
+RENAME = dict(zip(VARS, os.environ.get("SEED_SUFFIX", VARS)))
 BASE = set(json.load(open("/root/.vp/BASELINE.json"))["stable_pass"])
 def sh(cmd, cwd=None, env=None, timeout=1200):
     p = subprocess.run(cmd, shell=True, cwd=cwd, env=env, capture_output=True, text=True, timeout=timeout)
@@ -23,10 +25,10 @@ if WT.exists(): sh(f"git -C /repo worktree remove --force {WT}")
 WT.parent.mkdir(parents=True, exist_ok=True)
 print(sh(f"git -C /repo worktree add -q --detach {WT} HEAD"))
 for pid in pids:
-    for X in ("A", "B"):
+    for X in VARS:
         d = OUT / pid / X
         if not (d / "patch.diff").exists(): continue
-        meta = dict(property=pid, variant=X)
+        meta = dict(property=pid, variant=RENAME[X], round=os.environ.get("SEED_ROUND", "1"))
         sh("git checkout -q -- . && git clean -fdq", cwd=WT)
         rc0, o0 = demo(WT, d); meta["demo_unchanged_rc"] = rc0
         rc, o = sh(f"git apply {d}/patch.diff", cwd=WT); meta["applies"] = rc == 0
@@ -39,7 +41,7 @@ for pid in pids:
         meta["needs"] = notes[:1500]
         print(pid, X, "ok" if meta["ok"] else "REJECT", rc0, rc1, len(meta["baseline_missing"]), flush=True)
         if meta["ok"]:
-            t = DST / f"{pid}_{X}"; t.mkdir(parents=True, exist_ok=True)
+            t = DST / f"{pid}_{RENAME[X]}"; t.mkdir(parents=True, exist_ok=True)
             for f in ("patch.diff", "demo.py", "notes.md"):
                 if (d / f).exists(): shutil.copy(d / f, t / f)
             (t / "meta.json").write_text(json.dumps(meta, indent=1))
